@@ -34,6 +34,22 @@ macro_rules! finish {
 
 fn build(ctor: &Value, i: &Insn) -> Vec<u8> {
     let mut code = BpfCode::new();
+    push_one(&mut code, ctor, i);
+    code.into_bytes().to_vec()
+}
+
+/// `mov64 r0, 1 ; <the instruction> ; <the instruction> ; exit` built in one BpfCode: the bytes
+/// must be the concatenation of the four encodings, in order.
+fn build_sequence(ctor: &Value, i: &Insn) -> Vec<u8> {
+    let mut code = BpfCode::new();
+    code.mov(Source::Imm, Arch::X64).set_dst(0).set_imm(1).push();
+    push_one(&mut code, ctor, i);
+    push_one(&mut code, ctor, i);
+    code.exit().push();
+    code.into_bytes().to_vec()
+}
+
+fn push_one(code: &mut BpfCode, ctor: &Value, i: &Insn) {
     let (a, b, c) = (ctor[1].as_u64().unwrap(), ctor[2].as_u64().unwrap(), ctor[3].as_u64().unwrap());
     let arch = if c == 7 { Arch::X64 } else { Arch::X32 };
     match ctor[0].as_str().unwrap() {
@@ -65,7 +81,6 @@ fn build(ctor: &Value, i: &Insn) -> Vec<u8> {
         "exit" => finish!(code.exit(), i),
         k => panic!("ctor {k}"),
     }
-    code.into_bytes().to_vec()
 }
 
 pub fn run_enc(rec: &Value) -> Value {
@@ -121,6 +136,14 @@ fn check(rec: &Value) -> Vec<String> {
             let built = build(&rec["ctor"], &i);
             if built != want {
                 bad.push(format!("builder {} emits {:?}, the encoding of {:?} is {:?}", rec["ctor"], built, i, want));
+            }
+            let seq = build_sequence(&rec["ctor"], &i);
+            let mut want_seq = encode_slot(0xb7, 0, 0, 0, 1).to_vec();
+            want_seq.extend_from_slice(&want);
+            want_seq.extend_from_slice(&want);
+            want_seq.extend_from_slice(&encode_slot(0x95, 0, 0, 0, 0));
+            if seq != want_seq {
+                bad.push(format!("builder {}: a four-instruction program emits {:?}, the concatenation of the encodings is {:?}", rec["ctor"], seq, want_seq));
             }
             if i.to_array().to_vec() != want {
                 bad.push(format!("Insn::to_array gives {:?} for {:?}, the encoding is {:?}", i.to_array(), i, want));
